@@ -856,6 +856,10 @@ func genC13(g *gen) {
 		pk := dilithium.VerifPackPk(rho, &t1)
 		r3, t12 := dilithium.VerifUnpackPk(&pk)
 		g.check(r3 == rho && t12 == t1, "unpack-pack:pk", "unpackPk(packPk(rho, t1)) does not return the same components", "dl.unpackpk "+hx(pk[:]))
+		if t < 3 {
+			g.op("dl.unpacksk %s", hx(sk[:])) // the model's decoder on the same bytes
+			g.op("dl.unpackpk %s", hx(pk[:]))
+		}
 	}
 	for t := 0; t < 6; t++ {
 		var seed [48]byte
@@ -866,6 +870,10 @@ func genC13(g *gen) {
 		g.check(dilithium.VerifPackSk(rho, tr, key, &t0, &s1, &s2) == sk, "pack-unpack:sk", "packSk(unpackSk(sk)) != sk for a generated key", "dl.new k "+hx(seed[:]))
 		r3, t1 := dilithium.VerifUnpackPk(&pk)
 		g.check(dilithium.VerifPackPk(r3, &t1) == pk, "pack-unpack:pk", "packPk(unpackPk(pk)) != pk for a generated key", "dl.new k "+hx(seed[:]))
+		if t < 2 {
+			g.op("dl.unpacksk %s", hx(sk[:]))
+			g.op("dl.unpackpk %s", hx(pk[:]))
+		}
 		// the secret vectors are never all-zero rows (probability 5^-256 each): a row left undecoded shows here
 		zero := [256]int32{}
 		bad := false
